@@ -97,10 +97,11 @@ fn histories(opts: &Opts, rep: &mut Report) {
         for t in 0..nthreads {
             let peak = peak.clone();
             let live_total = live_total.clone();
-            handles.push(std::thread::spawn(move || -> Result<(u64, Option<String>), String> {
+            handles.push(std::thread::spawn(move || -> Result<(u64, u64, u64, Option<String>), String> {
                 let mut rng = Rng::new(hmix(seed, t as u64));
                 let mut live: Vec<AnyBuf> = Vec::new();
                 let mut created = 0u64;
+                let mut unwinds = 0u64;
                 let mut sub = Report::new("C18");
                 let ops = rng.range(20, 200 / nthreads.max(1) + 20);
                 for _ in 0..ops {
@@ -111,9 +112,22 @@ fn histories(opts: &Opts, rep: &mut Report) {
                         peak.fetch_max(l, std::sync::atomic::Ordering::SeqCst);
                         if rng.chance(1, 3) {
                             if let Some(e) = alias_check(live.last().unwrap(), &mut rng, &mut sub) {
-                                return Ok((created, Some(e)));
+                                return Ok((created, 0, unwinds, Some(e)));
                             }
                         }
+                    } else if rng.chance(1, 6) {
+                        // Dropped by a panic that unwinds through the owner (and is
+                        // contained, as by join() or catch_unwind): the release path
+                        // runs with std::thread::panicking() == true.
+                        let k = rng.range(1, std::cmp::min(3, live.len()));
+                        let victims: Vec<AnyBuf> = (0..k).map(|_| live.swap_remove(rng.below(live.len()))).collect();
+                        live_total.fetch_sub(k, std::sync::atomic::Ordering::SeqCst);
+                        let r = std::panic::catch_unwind(std::panic::AssertUnwindSafe(move || {
+                            let _owned = victims;
+                            panic!("verif: contained panic that drops streams while unwinding");
+                        }));
+                        assert!(r.is_err());
+                        unwinds += k as u64;
                     } else {
                         let i = rng.below(live.len());
                         live.swap_remove(i);
@@ -122,15 +136,16 @@ fn histories(opts: &Opts, rep: &mut Report) {
                 }
                 live_total.fetch_sub(live.len(), std::sync::atomic::Ordering::SeqCst);
                 drop(live);
-                Ok((created + (sub.counters.get("alias_probes").copied().unwrap_or(0) << 32), None))
+                Ok((created, sub.counters.get("alias_probes").copied().unwrap_or(0), unwinds, None))
             }));
         }
         let mut created = 0;
         for h in handles {
             match h.join() {
-                Ok(Ok((c, alias_err))) => {
-                    created += c & 0xffff_ffff;
-                    rep.count("alias_probes", c >> 32);
+                Ok(Ok((c, probes, unw, alias_err))) => {
+                    created += c;
+                    rep.count("alias_probes", probes);
+                    rep.count("drops_during_contained_unwind", unw);
                     if let Some(e) = alias_err {
                         rep.violation("C18|halves-do-not-alias", e, replay.clone());
                     }
@@ -287,6 +302,14 @@ fn mapping_failures(rep: &mut Report) {
 }
 
 pub fn main(opts: &Opts) -> Report {
+    // The histories contain intended, contained panics: keep their messages out
+    // of the log (every other panic still reaches the report through catch/join).
+    let prev = std::panic::take_hook();
+    std::panic::set_hook(Box::new(move |info| {
+        if !info.to_string().contains("verif: contained panic") {
+            prev(info);
+        }
+    }));
     let mut rep = Report::new("C18");
     rep.rule = "random create/drop histories of up to 200 streams (u8,u32,[u8;16] buffers and stream pairs; 1,2,3,8 pages) over 1-8 threads with the count of deleted-tmpfile mappings in /proc/self/maps and of /proc/self/fd entries compared with the baseline at every quiescent point; aliasing probes through a hook accessor (for every page: first byte, last byte and 62 random offsets, written low/read high and written high/read low); refused creations (non-page sizes, element sizes 3, 12 and 0) leave nothing behind and later streams pass a ring history; mapping failures injected in a child by RLIMIT_AS and by an LD_PRELOAD shim (first mmap ENOMEM, second mmap ENOMEM, second mmap at a different address); distinct = history seed".into();
     rep.assume("leak detection counts mappings of deleted files and open descriptors of the whole process; histories therefore run one at a time per worker process");
